@@ -522,6 +522,68 @@ func c20Queries(r *Run, state string) {
 			return e
 		})
 	}
+	// pagination keys that really occur (every entry's key, learnt from next_key with limit 1), in both
+	// directions -- cursor values a client legitimately holds
+	lists := map[string]func(c sdk.Context, p *query.PageRequest) (*query.PageResponse, error){
+		"Attesters": func(c sdk.Context, p *query.PageRequest) (*query.PageResponse, error) {
+			r, e := k.Attesters(c, &cctptypes.QueryAllAttestersRequest{Pagination: p})
+			if e != nil {
+				return nil, e
+			}
+			return r.Pagination, nil
+		},
+		"PerMessageBurnLimits": func(c sdk.Context, p *query.PageRequest) (*query.PageResponse, error) {
+			r, e := k.PerMessageBurnLimits(c, &cctptypes.QueryAllPerMessageBurnLimitsRequest{Pagination: p})
+			if e != nil {
+				return nil, e
+			}
+			return r.Pagination, nil
+		},
+		"TokenPairs": func(c sdk.Context, p *query.PageRequest) (*query.PageResponse, error) {
+			r, e := k.TokenPairs(c, &cctptypes.QueryAllTokenPairsRequest{Pagination: p})
+			if e != nil {
+				return nil, e
+			}
+			return r.Pagination, nil
+		},
+		"UsedNonces": func(c sdk.Context, p *query.PageRequest) (*query.PageResponse, error) {
+			r, e := k.UsedNonces(c, &cctptypes.QueryAllUsedNoncesRequest{Pagination: p})
+			if e != nil {
+				return nil, e
+			}
+			return r.Pagination, nil
+		},
+		"RemoteTokenMessengers": func(c sdk.Context, p *query.PageRequest) (*query.PageResponse, error) {
+			r, e := k.RemoteTokenMessengers(c, &cctptypes.QueryRemoteTokenMessengersRequest{Pagination: p})
+			if e != nil {
+				return nil, e
+			}
+			return r.Pagination, nil
+		},
+	}
+	for _, name := range sortedKeys(lists) {
+		name, fn := name, lists[name]
+		var keys [][]byte
+		func() {
+			defer func() { recover() }()
+			cctx, _ := w.ctx.CacheContext()
+			var next []byte
+			for i := 0; i < 20; i++ {
+				res, err := fn(cctx, &query.PageRequest{Key: next, Limit: 1})
+				if err != nil || res == nil || len(res.NextKey) == 0 {
+					return
+				}
+				next = res.NextKey
+				keys = append(keys, append([]byte{}, next...))
+			}
+		}()
+		for ki, key := range keys {
+			for pi, p := range []*query.PageRequest{{Key: key}, {Key: key, Reverse: true}, {Key: key, Reverse: true, Limit: 1}, {Key: key, Limit: 1<<64 - 1}, {Key: append(append([]byte{}, key...), 0), Reverse: true}, {Key: key[:len(key)/2], Reverse: true}} {
+				p := p
+				add(fmt.Sprintf("%s(real key #%d, shape %d)", name, ki, pi), func(c sdk.Context) error { _, e := fn(c, p); return e })
+			}
+		}
+	}
 	add("ExportGenesis", func(c sdk.Context) error { w.ExportCCTP(); return nil })
 	for _, qq := range qs {
 		cctx, _ := w.ctx.CacheContext()
